@@ -172,6 +172,50 @@ def check_op_object(op, spec):
     return fails
 
 
+REUSE_OPS = [["Noop", T.BOOL], ["Noop", T.QB], ["Not"], ["DivMod", 3], ["MakeTuple", [T.QB]], ["Tag", 0, [[T.BOOL], []]], ["LoadConst", O.INT5], ["Input", [T.QB, T.BOOL]],
+             ["Call", ["Poly", [], O.G([], [O.INT5])], O.G([], [O.INT5]), []], ["LoadFunc", ["Poly", [], O.G([T.QB], [])], O.G([T.QB], []), []], ["Const", ["TRUE"]], ["DFG", [T.BOOL], [O.FN], []]]
+
+
+def check_reuse(a_spec, b_spec, how):
+    """Port queries answer for the op a node holds *now*: node A is queried, deleted, its index
+    reused by B (or its op replaced in place), and B is queried."""
+    from hugr import ops
+    from hugr.hugr import Hugr
+    from hugr.hugr.node_port import InPort, OutPort
+
+    fails = []
+    h = Hugr(ops.Module())
+    h.add_node(ops.Custom("pad"), h.root)
+    a = h.add_node(O.build_op(a_spec), h.root)
+    sa = O.ref_sig(a_spec)
+    for off in range(0, max(1, len(sa["vout"]))):
+        _try(lambda: (h.port_kind(OutPort(a, off)), h.port_type(OutPort(a, off))))
+    for off in range(0, max(1, len(sa["vin"]))):
+        _try(lambda: (h.port_kind(InPort(a, off)), h.port_type(InPort(a, off))))
+    bop = O.build_op(b_spec)
+    if how == "delete+add":
+        h.delete_node(a)
+        b = h.add_node(bop, h.root)
+        if b.idx != a.idx:
+            return []
+    else:
+        h[a].op = bop
+        b = a
+    sb = O.ref_sig(b_spec)
+    for direction, P, n in (("out", OutPort, max(len(sb["vout"]), 1 if sb["static_out"] else 0)), ("in", InPort, len(sb["vin"]) + (1 if sb["static_in"] else 0))):
+        for off in range(n):
+            exp = expected_kind(sb, direction, off)
+            rk = _try(lambda: h.port_kind(P(b, off)))
+            if exp is not None and (rk[0] != "ok" or kind_tok(rk[1]) != exp):
+                fails.append((f"reuse:{how}:Hugr.port_kind:{direction}", f"{a_spec} then {b_spec} at the same index: port_kind({direction} {off}) = {rk}, specification {exp}"))
+            rt = _try(lambda: h.port_type(P(b, off)))
+            if exp is not None and exp[0] == "value" and direction == "out" and (rt[0] != "ok" or rt[1] is None or tok(rt[1]) != exp[1]):
+                fails.append((f"reuse:{how}:Hugr.port_type:{direction}", f"{a_spec} then {b_spec} at the same index: port_type({direction} {off}) = {rt}, expected the payload of the port's kind"))
+            if exp is not None and exp[0] != "value" and rt[0] == "ok" and rt[1] is not None:
+                fails.append((f"reuse:{how}:Hugr.port_type:stale", f"{a_spec} then {b_spec}: port_type({direction} {off}) = {rt[1]} for a {exp[0]} port"))
+    return fails
+
+
 def _chunk(specs):
     out = []
     for s in specs:
@@ -180,13 +224,23 @@ def _chunk(specs):
     return out
 
 
+GRAMMAR = {"quick": "thorough", "thorough": "deep"}  # the term grammars are cheap: quick already uses the larger one
+
+
 def run(tier: str, seed: int) -> Result:
     col = Collector()
-    specs = O.op_specs(tier)
+    specs = O.op_specs(GRAMMAR[tier])
     chunks = [specs[i::64] for i in range(64)]
     for res in pmap(_chunk, chunks):
         for sig, msg, s in res:
             col.add(sig, msg, {"op": s})
+    n_reuse = 0
+    for a in REUSE_OPS:
+        for b in REUSE_OPS:
+            for how in ("delete+add", "replace-op"):
+                n_reuse += 1
+                for sig, msg in check_reuse(a, b, how):
+                    col.add(sig, msg, {"reuse": [a, b, how]})
     kinds = {}
     for s in specs:
         kinds[s[0]] = kinds.get(s[0], 0) + 1
@@ -205,10 +259,13 @@ def run(tier: str, seed: int) -> Result:
         "samples": col.samples,
         "exhaustive": True,
         "ops_per_kind": kinds,
+        "index_reuse_cases": n_reuse,
     }
     return Result(cov, col.violations, ["R3 table: mc/drivers/opterms.py::ref_sig (from specification/hugr.md, ops/dataflow.rs, ops/controlflow.rs)",
                                         "types are compared by normalised encoding (Unit spelling == General spelling)"])
 
 
 def replay(case) -> list[Violation]:
+    if "reuse" in case:
+        return [Violation(s, m, case) for s, m in check_reuse(*case["reuse"])]
     return [Violation(s, m, case) for s, m in check_op(case["op"])]
